@@ -23,6 +23,15 @@ CLAIMED = {
          "correspondence on random table lists; WOFF/WOFF2/TTC containers and all derived fields (bboxes, maxp, hhea, hmtx, loca) are checked "
          "on the implementation by an independent spec reader over corpus and generated boundary fonts (testing, reported as such).",
          "Rocq proof over a hand-written writer model + byte-exact correspondence + independent-reader sweep"),
+ "C20": ("Theorems over the Gallina transcription of SFNTReader.__init__/readTTCHeader/DirectoryEntry.fromFile/loadData: for EVERY byte "
+         "string the outcome of opening a plain sfnt or collection and of loading a table is a value or the library's own error "
+         "(open_sfnt_clean, load_table_clean), a loaded table lies wholly inside the file and is exactly those bytes (load_table_in_bounds); "
+         "state-machine theorems for the ignoreDecompileErrors fallback (undecodable tables re-saved byte for byte) and for save (any failing "
+         "compile leaves the file system unchanged). Tied to the code by outcome/directory correspondence on truncated, corrupted and synthetic "
+         "headers; WOFF/WOFF2 containers, payload corruption, forced compile failures and code-execution canaries (safeEval, TTX attributes, "
+         "output naming) are implementation-side sweeps (testing). Known finding F6 (WOFF/WOFF2 leak zlib/brotli/assert errors) is listed; "
+         "F5 (TTC header) was repaired by a fix: commit.",
+         "Rocq proof of reader totality/outcome classes over a hand-written model + correspondence + fault-injection sweeps"),
 }
 
 def main():
